@@ -1,5 +1,501 @@
 package main
 
-import . "vh/vhlib"
+// Translators of the group `codec`.
+//
+//	Gen/ProtoConsts.v : protocol constants of the five xprotocol codecs (compiled-in values of the exported
+//	                    constants + the literal slice offsets of the bolt/boltv2 decoders read with go/ast)
+//	Gen/CodecSrc.v    : shape of the places that were repaired by `fix:` commits (bounds check in the header
+//	                    block decoder, length check of the bolt slow path, dubbo-thrift length test and frame copy,
+//	                    dubbo SetData, tars reader), read with go/ast so the model follows the tree
 
-var gens = map[string]GenFn{}
+import (
+	"bytes"
+	"fmt"
+	"go/ast"
+	"go/printer"
+	"go/token"
+	"sort"
+	"strconv"
+	"strings"
+
+	"mosn.io/mosn/pkg/protocol/xprotocol/bolt"
+	"mosn.io/mosn/pkg/protocol/xprotocol/boltv2"
+	"mosn.io/mosn/pkg/protocol/xprotocol/dubbo"
+	"mosn.io/mosn/pkg/protocol/xprotocol/dubbothrift"
+	"mosn.io/mosn/pkg/protocol/xprotocol/tars"
+
+	. "vh/vhlib"
+)
+
+var gens = map[string]GenFn{"ProtoConsts": genProtoConsts, "CodecSrc": genCodecSrc}
+
+func src(fset *token.FileSet, n ast.Node) string {
+	var b bytes.Buffer
+	printer.Fprint(&b, fset, n)
+	return strings.Join(strings.Fields(b.String()), " ")
+}
+
+// bytesRange finds the innermost bytes[lo:hi] / bytes[i] inside e (over the identifier named `over`).
+func bytesRange(e ast.Expr, over string) (lo, hi int, ok bool) {
+	ast.Inspect(e, func(n ast.Node) bool {
+		switch x := n.(type) {
+		case *ast.SliceExpr:
+			if id, is := x.X.(*ast.Ident); is && id.Name == over && x.Low != nil && x.High != nil {
+				l, ok1 := x.Low.(*ast.BasicLit)
+				h, ok2 := x.High.(*ast.BasicLit)
+				if ok1 && ok2 {
+					lo, _ = strconv.Atoi(l.Value)
+					hi, _ = strconv.Atoi(h.Value)
+					ok = true
+				}
+			}
+		case *ast.IndexExpr:
+			if id, is := x.X.(*ast.Ident); is && id.Name == over {
+				if l, ok1 := x.Index.(*ast.BasicLit); ok1 {
+					lo, _ = strconv.Atoi(l.Value)
+					hi = lo + 1
+					ok = true
+				}
+			}
+		}
+		return true
+	})
+	return
+}
+
+// fieldOffsets: name -> [lo,hi) for every `name := f(bytes[..])` and every `Name: f(bytes[..])` of the function.
+func fieldOffsets(fd *ast.FuncDecl) map[string][2]int {
+	m := map[string][2]int{}
+	ast.Inspect(fd.Body, func(n ast.Node) bool {
+		switch x := n.(type) {
+		case *ast.AssignStmt:
+			if len(x.Lhs) == 1 && len(x.Rhs) == 1 {
+				if id, ok := x.Lhs[0].(*ast.Ident); ok {
+					if _, isLit := x.Rhs[0].(*ast.CompositeLit); isLit {
+						return true
+					}
+					if lo, hi, ok := bytesRange(x.Rhs[0], "bytes"); ok {
+						m[id.Name] = [2]int{lo, hi}
+					}
+				}
+			}
+		case *ast.KeyValueExpr:
+			if id, ok := x.Key.(*ast.Ident); ok {
+				if _, isLit := x.Value.(*ast.CompositeLit); isLit {
+					return true
+				}
+				if lo, hi, ok := bytesRange(x.Value, "bytes"); ok {
+					m[id.Name] = [2]int{lo, hi}
+				}
+			}
+		}
+		return true
+	})
+	return m
+}
+
+func genProtoConsts(repo string) (string, error) {
+	var b strings.Builder
+	b.WriteString("From Coq Require Import NArith.\nOpen Scope N_scope.\n")
+	d := func(name string, v interface{}) { fmt.Fprintf(&b, "Definition %s : N := %v.\n", name, v) }
+	// compiled-in constants
+	d("bolt_ProtocolCode", bolt.ProtocolCode)
+	d("bolt_RequestHeaderLen", bolt.RequestHeaderLen)
+	d("bolt_ResponseHeaderLen", bolt.ResponseHeaderLen)
+	d("bolt_LessLen", bolt.LessLen)
+	d("bolt_RequestIdIndex", bolt.RequestIdIndex)
+	d("bolt_CmdTypeResponse", bolt.CmdTypeResponse)
+	d("bolt_CmdTypeRequest", bolt.CmdTypeRequest)
+	d("bolt_CmdTypeRequestOneway", bolt.CmdTypeRequestOneway)
+	d("bolt_CmdCodeHeartbeat", bolt.CmdCodeHeartbeat)
+	d("boltv2_ProtocolCode", boltv2.ProtocolCode)
+	d("boltv2_RequestHeaderLen", boltv2.RequestHeaderLen)
+	d("boltv2_ResponseHeaderLen", boltv2.ResponseHeaderLen)
+	d("boltv2_LessLen", boltv2.LessLen)
+	d("boltv2_RequestIdIndex", boltv2.RequestIdIndex)
+	d("dubbo_HeaderLen", dubbo.HeaderLen)
+	d("dubbo_IdLen", dubbo.IdLen)
+	d("dubbo_MagicIdx", dubbo.MagicIdx)
+	d("dubbo_FlagIdx", dubbo.FlagIdx)
+	d("dubbo_StatusIdx", dubbo.StatusIdx)
+	d("dubbo_IdIdx", dubbo.IdIdx)
+	d("dubbo_DataLenIdx", dubbo.DataLenIdx)
+	d("dubbo_DataLenSize", dubbo.DataLenSize)
+	d("dubbo_Magic0", dubbo.MagicTag[0])
+	d("dubbo_Magic1", dubbo.MagicTag[1])
+	d("dubbo_EventRequest", dubbo.EventRequest)
+	d("dubbo_EventResponse", dubbo.EventResponse)
+	d("thrift_MessageLenSize", dubbothrift.MessageLenSize)
+	d("thrift_MagicLen", dubbothrift.MagicLen)
+	d("thrift_MessageLenIdx", dubbothrift.MessageLenIdx)
+	d("thrift_MessageHeaderLenIdx", dubbothrift.MessageHeaderLenIdx)
+	d("thrift_MessageHeaderLenSize", dubbothrift.MessageHeaderLenSize)
+	d("thrift_HeaderIdx", dubbothrift.HeaderIdx)
+	d("thrift_HeaderLen", dubbothrift.HeaderLen)
+	d("thrift_IdLen", dubbothrift.IdLen)
+	d("thrift_Magic0", dubbothrift.MagicTag[0])
+	d("thrift_Magic1", dubbothrift.MagicTag[1])
+	d("tars_MessageSizeLen", tars.MessageSizeLen)
+	d("tars_IVersionLen", tars.IVersionLen)
+	d("tars_IVersionHeaderIdx", tars.IVersionHeaderIdx)
+	d("tars_MaxPackageLength", 10485760)
+
+	ok := true
+	// literal offsets of the bolt / boltv2 decoders
+	type want struct {
+		pkg, fn, pre string
+		names       []string
+	}
+	wants := []want{
+		{"bolt", "decodeRequest", "bolt_req", []string{"classLen", "headerLen", "contentLen", "CmdCode", "Version", "RequestId", "Codec", "Timeout"}},
+		{"bolt", "decodeResponse", "bolt_resp", []string{"classLen", "headerLen", "contentLen", "CmdCode", "Version", "RequestId", "Codec", "ResponseStatus"}},
+		{"boltv2", "decodeRequest", "boltv2_req", []string{"classLen", "headerLen", "contentLen", "CmdCode", "Version", "RequestId", "Codec", "Timeout", "Version1", "SwitchCode"}},
+		{"boltv2", "decodeResponse", "boltv2_resp", []string{"classLen", "headerLen", "contentLen", "CmdCode", "Version", "RequestId", "Codec", "ResponseStatus", "Version1", "SwitchCode"}},
+	}
+	for _, w := range wants {
+		_, f, err := ParseGoFile(repo, "pkg/protocol/xprotocol/"+w.pkg+"/decoder.go")
+		if err != nil {
+			return "", err
+		}
+		fd := FindFunc(f, "", w.fn)
+		if fd == nil {
+			return "", fmt.Errorf("%s.%s not found", w.pkg, w.fn)
+		}
+		offs := fieldOffsets(fd)
+		for _, n := range w.names {
+			o, found := offs[n]
+			if !found {
+				ok = false
+				o = [2]int{0, 0}
+			}
+			d(w.pre+"_"+n+"_lo", o[0])
+			d(w.pre+"_"+n+"_hi", o[1])
+		}
+	}
+	// index of the cmd type byte in Decode
+	for _, pk := range []string{"bolt", "boltv2"} {
+		fset, f, err := ParseGoFile(repo, "pkg/protocol/xprotocol/"+pk+"/protocol.go")
+		if err != nil {
+			return "", err
+		}
+		fd := FindFunc(f, pk+"Protocol", "Decode")
+		idx := -1
+		if fd != nil {
+			ast.Inspect(fd.Body, func(n ast.Node) bool {
+				if as, is := n.(*ast.AssignStmt); is && len(as.Lhs) == 1 {
+					if id, is := as.Lhs[0].(*ast.Ident); is && id.Name == "cmdType" {
+						s := src(fset, as.Rhs[0])
+						if strings.HasPrefix(s, "data.Bytes()[") && strings.HasSuffix(s, "]") {
+							idx, _ = strconv.Atoi(s[len("data.Bytes()[") : len(s)-1])
+						}
+					}
+				}
+				return true
+			})
+		}
+		if idx < 0 {
+			ok = false
+			idx = 0
+		}
+		d(pk+"_cmdtype_idx", idx)
+	}
+	fmt.Fprintf(&b, "Definition ProtoConsts_translator_ok := %v.\n", ok)
+	return b.String(), nil
+}
+
+// ---------------------------------------------------------------------------------------------
+
+func genCodecSrc(repo string) (string, error) {
+	var b strings.Builder
+	b.WriteString("(* source-driven switches: true = the repaired shape is present in the tree *)\nFrom Coq Require Import List.\nImport ListNotations.\n")
+	ok := true
+	sw := map[string]bool{}
+	unknown := func(what, got string) {
+		ok = false
+		fmt.Fprintf(&b, "(* unrecognised source at %s: %s *)\n", what, strings.ReplaceAll(got, "*)", "* )"))
+	}
+
+	// 1. header block decoder: bounds check in front of the length read; bolt and boltv2 call xprotocol.DecodeHeader
+	{
+		fset, f, err := ParseGoFile(repo, "pkg/protocol/xprotocol/header.go")
+		if err != nil {
+			return "", err
+		}
+		checked := false
+		if fd := FindFunc(f, "", "decodeStr"); fd != nil && len(fd.Body.List) > 0 {
+			if is, isIf := fd.Body.List[0].(*ast.IfStmt); isIf {
+				c := src(fset, is.Cond)
+				_, ret := is.Body.List[len(is.Body.List)-1].(*ast.ReturnStmt)
+				if c == "totalLen-index < 4" && ret {
+					checked = true
+				} else {
+					unknown("xprotocol/header.go decodeStr", c)
+				}
+			}
+			// the loop must be the one modelled: it is compared by the correspondence check; here only the guard
+		} else if FindFunc(f, "", "DecodeHeader") != nil {
+			unknown("xprotocol/header.go", "DecodeHeader without decodeStr")
+		}
+		users := 0
+		for _, pk := range []string{"bolt", "boltv2"} {
+			fset2, f2, err := ParseGoFile(repo, "pkg/protocol/xprotocol/"+pk+"/decoder.go")
+			if err != nil {
+				return "", err
+			}
+			for _, fn := range []string{"decodeRequest", "decodeResponse"} {
+				fd := FindFunc(f2, "", fn)
+				if fd == nil {
+					unknown(pk+"/decoder.go", fn+" missing")
+					continue
+				}
+				s := src(fset2, fd.Body)
+				if strings.Contains(s, "xprotocol.DecodeHeader(") && !strings.Contains(s, "header.DecodeHeader(") {
+					users++
+				}
+			}
+		}
+		sw["xp_hdr_checked"] = checked && users == 4
+	}
+
+	// 2. bolt / boltv2 slow path: CheckEncodeLength before the length fields are computed
+	{
+		n := 0
+		for _, pk := range []string{"bolt", "boltv2"} {
+			fset, f, err := ParseGoFile(repo, "pkg/protocol/xprotocol/"+pk+"/encoder.go")
+			if err != nil {
+				return "", err
+			}
+			for _, fn := range []string{"encodeRequest", "encodeResponse"} {
+				fd := FindFunc(f, "", fn)
+				if fd == nil {
+					unknown(pk+"/encoder.go", fn+" missing")
+					continue
+				}
+				// statement list: [if rawData != nil {...}] [if err := CheckEncodeLength(...); err != nil { return nil, err }] ...
+				if len(fd.Body.List) >= 2 {
+					if is, isIf := fd.Body.List[1].(*ast.IfStmt); isIf && is.Init != nil {
+						s := src(fset, is.Init)
+						if strings.Contains(s, "CheckEncodeLength(len(") && strings.Contains(s, ".Class)") && strings.Contains(s, "GetHeaderEncodeLength(") && strings.Contains(s, ".Content)") && src(fset, is.Cond) == "err != nil" {
+							if rs, isRet := is.Body.List[0].(*ast.ReturnStmt); isRet && src(fset, rs) == "return nil, err" {
+								n++
+							}
+						}
+					}
+				}
+			}
+		}
+		fset, f, err := ParseGoFile(repo, "pkg/protocol/xprotocol/bolt/encoder.go")
+		if err != nil {
+			return "", err
+		}
+		condOK := false
+		if fd := FindFunc(f, "", "CheckEncodeLength"); fd != nil {
+			ast.Inspect(fd.Body, func(nd ast.Node) bool {
+				if is, isIf := nd.(*ast.IfStmt); isIf {
+					c := src(fset, is.Cond)
+					if c == "classLen > math.MaxUint16 || headerLen > math.MaxUint16 || uint64(contentLen) > math.MaxUint32" {
+						condOK = true
+					}
+				}
+				return true
+			})
+		}
+		if n != 0 && n != 4 {
+			unknown("bolt/boltv2 encoder.go", fmt.Sprintf("CheckEncodeLength guards %d of 4 encoders", n))
+		}
+		sw["bolt_enc_checked"] = n == 4 && condOK
+	}
+
+	// 3. dubbo-thrift: length test and frame copy
+	{
+		fset, f, err := ParseGoFile(repo, "pkg/protocol/xprotocol/dubbothrift/protocol.go")
+		if err != nil {
+			return "", err
+		}
+		conds := []string{}
+		if fd := FindFunc(f, "thriftProtocol", "Decode"); fd != nil {
+			ast.Inspect(fd.Body, func(nd ast.Node) bool {
+				if is, isIf := nd.(*ast.IfStmt); isIf {
+					conds = append(conds, src(fset, is.Cond))
+				}
+				return true
+			})
+		}
+		switch {
+		case len(conds) >= 2 && conds[0] == "data.Len() >= MessageLenSize+MagicLen" && conds[1] == "data.Len() >= MessageLenSize+int(frameLen)":
+			sw["thrift_len_has_prefix"] = true
+		case len(conds) >= 2 && conds[0] == "data.Len() >= MessageLenSize+MagicLen" && conds[1] == "data.Len() >= int(frameLen)":
+			sw["thrift_len_has_prefix"] = false
+		default:
+			unknown("dubbothrift Decode", strings.Join(conds, " ; "))
+		}
+		fset, f, err = ParseGoFile(repo, "pkg/protocol/xprotocol/dubbothrift/decoder.go")
+		if err != nil {
+			return "", err
+		}
+		cp := false
+		if fd := FindFunc(f, "", "decodeFrame"); fd != nil {
+			s := src(fset, fd.Body)
+			if strings.Contains(s, "dataBytes := make([]byte, frameLen) copy(dataBytes, data.Bytes()[:frameLen])") &&
+				strings.Contains(s, "frameLen := MessageLenSize + int(binary.BigEndian.Uint32(data.Bytes()[:MessageLenSize]))") {
+				cp = true
+			} else if !strings.Contains(s, "dataBytes := data.Bytes()") {
+				unknown("dubbothrift decodeFrame", "dataBytes")
+			}
+		}
+		sw["thrift_copies_frame"] = cp
+	}
+
+	// 4. dubbo SetData drops the raw frame
+	{
+		fset, f, err := ParseGoFile(repo, "pkg/protocol/xprotocol/dubbo/command.go")
+		if err != nil {
+			return "", err
+		}
+		v := false
+		if fd := FindFunc(f, "Frame", "SetData"); fd != nil {
+			s := src(fset, fd.Body)
+			v = strings.Contains(s, "if r.content != data {") && strings.Contains(s, "r.rawData = nil") && strings.Contains(s, "r.DataLen = uint32(data.Len())") && strings.Contains(s, "r.payload = data.Bytes()")
+			if !v && s != "{ r.content = data r.payload = data.Bytes() r.DataLen = uint32(data.Len()) }" {
+				unknown("dubbo SetData", s)
+			}
+		}
+		sw["dubbo_setdata_resets_raw"] = v
+	}
+
+	// 5. tars reader over the frame body
+	{
+		fset, f, err := ParseGoFile(repo, "pkg/protocol/xprotocol/tars/decoder.go")
+		if err != nil {
+			return "", err
+		}
+		n := 0
+		for _, fn := range []string{"decodeRequest", "decodeResponse"} {
+			if fd := FindFunc(f, "", fn); fd != nil {
+				s := src(fset, fd.Body)
+				if strings.Contains(s, "is := codec.NewReader(rawData[MessageSizeLen:])") && strings.Contains(s, "rawData := make([]byte, frameLen) copy(rawData, data.Bytes()[:frameLen])") {
+					n++
+				} else if !strings.Contains(s, "is := codec.NewReader(data.Bytes())") {
+					unknown("tars "+fn, "reader")
+				}
+			}
+		}
+		sw["tars_reader_in_frame"] = n == 2
+	}
+
+	// 6. dubbo Decode: the "whole frame buffered" test in int arithmetic
+	{
+		fset, f, err := ParseGoFile(repo, "pkg/protocol/xprotocol/dubbo/protocol.go")
+		if err != nil {
+			return "", err
+		}
+		conds := []string{}
+		body := ""
+		if fd := FindFunc(f, "dubboProtocol", "Decode"); fd != nil {
+			body = src(fset, fd.Body)
+			ast.Inspect(fd.Body, func(nd ast.Node) bool {
+				if is, isIf := nd.(*ast.IfStmt); isIf {
+					conds = append(conds, src(fset, is.Cond))
+				}
+				return true
+			})
+		}
+		switch {
+		case len(conds) == 3 && conds[0] == "data.Len() >= HeaderLen" && conds[1] == "data.Len() >= (HeaderLen + int(payLoadLen))" && conds[2] == "err != nil" &&
+			strings.Contains(body, "payLoadLen := binary.BigEndian.Uint32(data.Bytes()[DataLenIdx:(DataLenIdx + DataLenSize)])"):
+			sw["dubbo_cmp_int"] = true
+		case len(conds) == 3 && conds[0] == "data.Len() < HeaderLen" && conds[1] == "uint32(data.Len()) < frameLen" &&
+			strings.Contains(body, "frameLen := HeaderLen + binary.BigEndian.Uint32(data.Bytes()[DataLenIdx:(DataLenIdx+DataLenSize)])"):
+			sw["dubbo_cmp_int"] = false
+		default:
+			sw["dubbo_cmp_int"] = false
+			unknown("dubbo Decode", strings.Join(conds, " ; "))
+		}
+		// decodeFrame: uint32 frame length, copy, payload slice
+		fset, f, err = ParseGoFile(repo, "pkg/protocol/xprotocol/dubbo/decoder.go")
+		if err != nil {
+			return "", err
+		}
+		if fd := FindFunc(f, "", "decodeFrame"); fd != nil {
+			b := src(fset, fd.Body)
+			for _, want := range []string{"frameLen := HeaderLen + frame.DataLen", "body := make([]byte, frameLen) copy(body, dataBytes[:frameLen]) frame.payload = body[HeaderLen:]", "data.Drain(int(frameLen))"} {
+				if !strings.Contains(b, want) {
+					unknown("dubbo decodeFrame", want)
+				}
+			}
+		}
+	}
+
+	// 7. tars Decode: stream type scan confined to the frame
+	{
+		fset, f, err := ParseGoFile(repo, "pkg/protocol/xprotocol/tars/protocol.go")
+		if err != nil {
+			return "", err
+		}
+		v := false
+		if fd := FindFunc(f, "tarsProtocol", "Decode"); fd != nil {
+			b := src(fset, fd.Body)
+			if strings.Contains(b, "frameLen, status := tarsprotocol.TarsRequest(data.Bytes())") && strings.Contains(b, "getStreamType(data.Bytes()[:frameLen])") && strings.Contains(b, "if status == tarsprotocol.PACKAGE_FULL {") {
+				v = true
+			} else if !strings.Contains(b, "getStreamType(data.Bytes())") {
+				unknown("tars Decode", "getStreamType")
+			}
+		}
+		sw["tars_stype_in_frame"] = v
+	}
+
+	// 8. tars getStreamType: which Jce types of tag 5 mean response / request
+	{
+		fset, f, err := ParseGoFile(repo, "pkg/protocol/xprotocol/tars/protocol.go")
+		if err != nil {
+			return "", err
+		}
+		jce := map[string]int{"codec.BYTE": 0, "codec.SHORT": 1, "codec.INT": 2, "codec.LONG": 3, "codec.FLOAT": 4, "codec.DOUBLE": 5, "codec.STRING1": 6, "codec.STRING4": 7,
+			"codec.MAP": 8, "codec.LIST": 9, "codec.STRUCT_BEGIN": 10, "codec.STRUCT_END": 11, "codec.ZERO_TAG": 12, "codec.SIMPLE_LIST": 13}
+		var resp, req []string
+		if fd := FindFunc(f, "", "getStreamType"); fd != nil {
+			if !strings.Contains(src(fset, fd.Body), "b.SkipToNoCheck(5, true)") {
+				unknown("tars getStreamType", "SkipToNoCheck")
+			}
+			ast.Inspect(fd.Body, func(nd ast.Node) bool {
+				cc, is := nd.(*ast.CaseClause)
+				if !is || len(cc.Body) == 0 {
+					return true
+				}
+				ret := src(fset, cc.Body[len(cc.Body)-1])
+				for _, e := range cc.List {
+					v, known := jce[src(fset, e)]
+					if !known {
+						unknown("tars getStreamType case", src(fset, e))
+						continue
+					}
+					switch ret {
+					case "return CmdTypeResponse, nil":
+						resp = append(resp, fmt.Sprint(v))
+					case "return CmdTypeRequest, nil":
+						req = append(req, fmt.Sprint(v))
+					default:
+						unknown("tars getStreamType return", ret)
+					}
+				}
+				return true
+			})
+		} else {
+			unknown("tars", "getStreamType missing")
+		}
+		sort.Strings(resp)
+		sort.Strings(req)
+		fmt.Fprintf(&b, "From Coq Require Import NArith List.\nDefinition tars_resp_types : list N := [%s]%%N.\nDefinition tars_req_types : list N := [%s]%%N.\n", strings.Join(resp, ";"), strings.Join(req, ";"))
+	}
+
+	names := make([]string, 0, len(sw))
+	for k := range sw {
+		names = append(names, k)
+	}
+	sort.Strings(names)
+	for _, k := range names {
+		fmt.Fprintf(&b, "Definition %s : bool := %v.\n", k, sw[k])
+	}
+	fmt.Fprintf(&b, "Definition CodecSrc_translator_ok := %v.\n", ok)
+	return b.String(), nil
+}
